@@ -26,10 +26,14 @@ CHECKS = {
               "scalar results JSON-safe; dump model tied to the code by type-exact correspondence incl. aliasing / side-effect monitors"),
         technique='Lean 4 proof over generated tables + hand model + differential correspondence', ref='4 C03'),
     'C04': dict(
-        text=("Lean theorems: truthy table = documented set (regenerated from source), bool/int/str/datetime/Enum coercion "
-              "laws incl. a proof that the int-of-float rule is round-half-even of the exact value, element-wise lifting; model tied to "
-              "the code by a spelling-table x nesting-context correspondence; ref_coerce oracle transcribed from docs/overview.rst"),
-        technique='Lean 4 proof over a hand model + generated table + differential correspondence', ref='4 C04'),
+        text=("Lean theorems for all three engines: default — truthy table = documented set (regenerated), coercion laws, int-of-float "
+              "= round-half-even of the exact value, nesting lifting; v1 — scalar laws, element-wise lifting (induction over member "
+              "types / through mapME) and position independence through any stack of list / set / deque / tuple / dict-value / "
+              "Optional layers (induction over contexts); EnvWizard — string conversion model with the decision order numeric-before-ISO "
+              "for date / datetime for all strings, bool table, split / join lemmas (induction), position independence; witness of the "
+              "recorded fixed-tuple finding. Tie: spelling table x nesting contexts per engine vs ref_coerce and the model, type-directed "
+              "fuzz of environment strings, splitting functions compared directly"),
+        technique='Lean 4 proof over hand models of three engines + generated table + differential correspondence', ref='4 C04'),
     'C05': dict(
         text=("Lean theorems: soundness of every scalar loader for all JSON inputs (nan/inf/huge/junk/containers), no load hook writes "
               "its arguments (ast effect summaries), witnesses of the two recorded findings and of the repaired Union defect; model tied "
@@ -135,9 +139,14 @@ CHECKS = {
               "oracle: behaviour of G with F defined/configured/exercised == behaviour of G alone (forked children), all orders"),
         technique='Lean 4 proof over a hand state machine + forked-history correspondence + isolation oracle', ref='4 C07'),
     'C08': dict(
-        text=("Lean theorems about the model of string_conv / object_path (casing round trips for canonical snake names, "
-              "tokenizer facts), model tied to the code by exhaustive small-alphabet correspondence plus end-to-end alias/path checks"),
-        technique='Lean 4 proof over a hand model + exhaustive differential correspondence', ref='4 C08'),
+        text=("Lean theorems: split_object_path parses what a token list prints (parse/print round trip by induction with a tokenizer "
+              "state invariant; bool / int components after any quoted components), v1 first listed alias present wins (induction over "
+              "the alias list), load independent of the document's key order, dump=False / skip win over all=True for every documented "
+              "form, first listed alias is the dump key, casing round trips (lisp: every canonical name; camel / pascal: exact safe "
+              "classes with witnesses outside them, and the property's own name class). Tie: exhaustive small-alphabet + token-grammar "
+              "correspondence of casing and paths, end-to-end alias / path classes on both engines vs an independent reference and an "
+              "alias model (op c08), dump-before-load orders"),
+        technique='Lean 4 proof over hand models + exhaustive / grammar-based differential correspondence + end-to-end oracle', ref='4 C08'),
 }
 
 NOT_YET = {}
